@@ -176,9 +176,14 @@ def overlapping_fields(rng, sv, doc):
     d = copy.deepcopy(doc)
     p = Pos(sv, d)
     variants = ["direct", "inline", "spread", "nested", "args", "types", "nested-spread", "nested-fragment-vs-direct",
-                "nested-fragment-vs-direct"]
+                "nested-fragment-vs-direct", "leaf-vs-composite", "leaf-vs-composite"]
     rng.shuffle(variants)
     for v in variants:
+        if v == "leaf-vs-composite":
+            r = _leaf_vs_composite(rng, sv, d, p)
+            if r:
+                return d, r
+            continue
         objlists = [(l, par, df, depth) for l, par, df, depth in p.lists if par and sv.kind(par) in ("object", "interface")
                     and not (df["k"] == "op" and df["op"] == "subscription" and depth == 0)]
         rng.shuffle(objlists)
@@ -282,6 +287,55 @@ def overlapping_fields(rng, sv, doc):
                                     l.insert(rng.randint(0, len(l)), {"k": "inline", "on": o1, "dirs": [], "sels": [mk_field(f1, alias="zc")]})
                                     l.insert(rng.randint(0, len(l)), {"k": "inline", "on": o2, "dirs": [], "sels": [mk_field(f2, alias="zc")]})
                                     return d, "conflicting-types-exclusive-parents"
+    return None
+
+
+def _shape(t):
+    return "N" if t[0] == "named" else t[0][0] + _shape(t[1])
+
+
+def _leaf_vs_composite(rng, sv, d, p):
+    """same response key under two DIFFERENT object types: a leaf field (scalar / enum) on one side, a composite field
+    WITH a sub-selection on the other, both with the same list / non-null wrappers (SameResponseShape: invalid);
+    inline fragments or named fragments, either order"""
+    lists = [(l, par) for l, par, df, depth in p.lists if par and sv.kind(par) in ("interface", "union")]
+    rng.shuffle(lists)
+    noreq = lambda f: not any(a["type"][0] == "nonNull" and a.get("default") is None for a in f.get("args") or [])
+    for l, par in lists:
+        objs = sorted(sv.possible(par))
+        pairs = []
+        for o1 in objs:
+            for o2 in objs:
+                if o1 == o2:
+                    continue
+                for f1 in sv.fields(o1):
+                    if not (sv.is_leaf(gs.ty_base(f1["type"])) and noreq(f1)):
+                        continue
+                    for f2 in sv.fields(o2):
+                        if sv.is_composite(gs.ty_base(f2["type"])) and noreq(f2) and _shape(f1["type"]) == _shape(f2["type"]):
+                            pairs.append((o1, f1, o2, f2))
+        if not pairs:
+            continue
+        o1, f1, o2, f2 = rng.choice(pairs)
+        leaf = mk_field(f1, alias="zc")
+        comp = mk_field(f2, alias="zc", sels=[typename()])
+        leaf_kind = sv.kind(gs.ty_base(f1["type"]))
+        comp_kind = sv.kind(gs.ty_base(f2["type"]))
+        named = rng.random() < 0.5
+        if named:
+            n1, n2 = rng.choice([("Zl", "Zk"), ("L", "K")])
+            a = {"k": "spread", "name": n1, "dirs": []}
+            b = {"k": "spread", "name": n2, "dirs": []}
+            d["defs"].insert(rng.randint(0, len(d["defs"])), {"k": "frag", "name": n1, "on": o1, "dirs": [], "sels": [leaf]})
+            d["defs"].insert(rng.randint(0, len(d["defs"])), {"k": "frag", "name": n2, "on": o2, "dirs": [], "sels": [comp]})
+        else:
+            a = {"k": "inline", "on": o1, "dirs": [], "sels": [leaf]}
+            b = {"k": "inline", "on": o2, "dirs": [], "sels": [comp]}
+        leaf_first = rng.random() < 0.5
+        i = rng.randint(0, len(l))
+        l[i:i] = [a, b] if leaf_first else [b, a]
+        return "%s-leaf-vs-%s-composite-%s-%s" % (leaf_kind, comp_kind, "fragments" if named else "inline",
+                                                   "leaf-first" if leaf_first else "composite-first")
     return None
 
 
@@ -467,7 +521,9 @@ def known_fragment_names(rng, sv, doc):
     d = copy.deepcopy(doc)
     p = Pos(sv, d)
     l = rng.choice(p.lists)[0]
-    l.insert(rng.randint(0, len(l)), {"k": "spread", "name": "ZzUndefined", "dirs": []})
+    defined = {x["name"] for x in frags(d)}
+    name = rng.choice([n for n in ["ZzUndefined", "Zx", "A", "B", "Fr1", "Fr2", "Y"] if n not in defined])
+    l.insert(rng.randint(0, len(l)), {"k": "spread", "name": name, "dirs": []})
     return d, "undefined-fragment"
 
 
